@@ -16,7 +16,7 @@ pub fn spec() -> PropSpec {
     PropSpec {
         id: "C11",
         level: "exploration",
-        rule: "histories over the alphabet of well-formed frames of every supported format: (1) bounded-exhaustive - every sequence of length <= 2 (thorough: <= 3) over a fixed 46-symbol alphabet for one aircraft (a second aircraft is present as bystander) under the four -U/-R combinations; (2) proptest sequences of length 3..50 for 1..4 aircraft with time steps 0..15 s. One reader run per frame on a persistent table; after every prefix a reference transition oracle checks every modelled parameter of the addressed row against its set of acceptable values (valid carried value => that value; carried but invalid => blank or previous; not carried => unchanged; creating DF20/21 may contribute the address only), every other row must be bit-identical, and re-feeding the same frame must leave the row identical (all 47 fields, wall-clock stamps excluded). Modelled: altitude, squawk, callsign+category, ground speed/track, vertical rate, position (valid close pair decodes, otherwise unchanged), surveillance status, ADS-B version, capability, Comm-B groups (C10 rules). Non-trivial = sequence in which >= 2 different formats hit the same row and >= 1 parameter is overwritten or deliberately left alone; distinct by hash",
+        rule: "histories over the alphabet of well-formed frames of every supported format: (1) bounded-exhaustive - every sequence of length <= 2 (thorough: <= 3) over a fixed 46-symbol alphabet for one aircraft (a second aircraft is present as bystander) under the four -U/-R combinations; (2) proptest sequences of length 3..50 for 1..4 aircraft with time steps 0..15 s. One reader run per frame on a persistent table; after every prefix a reference transition oracle checks every modelled parameter of the addressed row against its set of acceptable values (valid carried value => that value; carried but invalid => blank or previous; not carried => unchanged; creating DF20/21 may contribute the address only), every other row must be bit-identical, and re-feeding the same frame must leave the row identical (all 47 fields, wall-clock stamps excluded); finally the whole history fed in one reader run must give the same table as feeding it frame by frame. Modelled: altitude, squawk, callsign+category, ground speed/track, vertical rate, position (valid close pair decodes, otherwise unchanged), surveillance status, ADS-B version, capability, Comm-B groups (C10 rules). Non-trivial = sequence in which >= 2 different formats hit the same row and >= 1 parameter is overwritten or deliberately left alone; distinct by hash",
         assumptions: &[
             "unconstrained (anything accepted, counted in 'excluded'): Gillham and M=1 altitude codes, DF18 payloads, track after a surface squitter, position while a CPR slot holds a surface squitter or the two slots come from positions more than 1 degree apart or lie within 1e-6 deg of an NL boundary, vertical rate / ground speed for TC19 subtypes other than 1-4",
             "DF17 may or may not update the recorded capability",
@@ -332,7 +332,6 @@ pub fn check_history(opts: &Opts, steps: &[Step], st: &mut Stats) -> Result<(), 
     let started = std::time::Instant::now();
     for (i, s) in steps.iter().enumerate() {
         let addr = gen::POOL[s.ac];
-        debug_assert_eq!(s.frame.address(), addr);
         run::shift_time(&t, s.dt);
         now += s.dt;
         let before = run::snapshot(&t);
@@ -449,6 +448,24 @@ fn classify(c: &mut Ctx, st: &Stats, key: &impl std::hash::Hash) {
     }
 }
 
+/// batch relation: the whole history in ONE reader run gives the same table as one reader run per frame
+/// (no state may survive from one line to the next except through the table)
+pub fn check_batch_equals_stepwise(opts: &Opts, steps: &[Step]) -> Result<(), String> {
+    let all: Vec<String> = steps.iter().map(|s| s.frame.hex()).collect();
+    let tb = run::new_table();
+    run::run_lines(opts, &tb, &all).map_err(|e| format!("reader failed on the whole history: {:?}", e))?;
+    let ts = run::new_table();
+    for l in &all {
+        run::run_lines(opts, &ts, std::slice::from_ref(l)).map_err(|e| format!("reader failed: {:?}", e))?;
+    }
+    let a = run::no_clock(&run::snapshot(&tb));
+    let b = run::no_clock(&run::snapshot(&ts));
+    if a != b {
+        return Err(format!("feeding the history in one run gives a different table than feeding it frame by frame ({}): {}", opts.label(), run::table_diff(&b, &a).iter().take(5).cloned().collect::<Vec<_>>().join("; ")));
+    }
+    Ok(())
+}
+
 fn run(c: &mut Ctx) {
     let alpha = fixed_alphabet();
     let n = alpha.len();
@@ -471,7 +488,7 @@ fn run(c: &mut Ctx) {
                 x /= n as u64;
             }
             let mut st = Stats::default();
-            let r = check_history(opts, &steps, &mut st);
+            let r = check_history(opts, &steps, &mut st).and_then(|_| check_batch_equals_stepwise(opts, &steps));
             classify(c, &st, &("fixed", oi, code));
             c.class("bounded_exhaustive_sequence");
             if let Err(m) = r {
@@ -486,11 +503,11 @@ fn run(c: &mut Ctx) {
     if c.failed() {
         return;
     }
-    let cases = c.tier.pick(6_000, 200_000);
+    let cases = c.tier.pick(24_000, 400_000);
     let strat = (gen::opts_ur(), (1usize..=4).prop_flat_map(|k| alphabet::history(k, 3..50, 15)));
     let r = c.proptest(cases, strat, |c, (opts, steps), counting| {
         let mut st = Stats::default();
-        let r = check_history(opts, steps, &mut st);
+        let r = check_history(opts, steps, &mut st).and_then(|_| check_batch_equals_stepwise(opts, steps));
         if counting {
             classify(c, &st, &format!("{:?}{:?}", opts, steps));
             c.class("generated_sequence");
@@ -510,7 +527,7 @@ fn replay(c: &mut Ctx, case: &Value) {
     let opts: Opts = serde_json::from_value(case["opts"].clone()).unwrap_or_default();
     let Ok(steps) = serde_json::from_value::<Vec<Step>>(case["steps"].clone()) else { return c.inconclusive("bad replay") };
     let mut st = Stats::default();
-    if let Err(m) = check_history(&opts, &steps, &mut st) {
+    if let Err(m) = check_history(&opts, &steps, &mut st).and_then(|_| check_batch_equals_stepwise(&opts, &steps)) {
         c.fail(m, "c11:transition", case.clone());
     }
 }
